@@ -7,6 +7,7 @@ import (
 
 	zz "github.com/cloudwego/hertz/internal/zzverif"
 	"github.com/cloudwego/hertz/pkg/app"
+	"github.com/cloudwego/hertz/pkg/common/utils"
 	"github.com/cloudwego/hertz/pkg/route/param"
 )
 
@@ -338,6 +339,8 @@ func ZZ_C06_H3() {
 	e := zzNewEngine()
 	e.options.UnescapePathValues = true // the documented default
 	e.options.UseRawPath = useRaw
+	removeExtra := zz.Choose("removeExtraSlash", 2) == 1
+	e.options.RemoveExtraSlash = removeExtra
 	hit := -1
 	var got []string
 	fullPath := ""
@@ -367,6 +370,11 @@ func ZZ_C06_H3() {
 		path = string(ctx.Request.URI().PathOriginal())
 	} else {
 		path = string(ctx.Request.URI().Path())
+	}
+	if removeExtra {
+		// documented: the path that is matched is the cleaned one (CleanPath is C07's subject)
+		path = utils.CleanPath(path)
+		zz.Cover("extra-slash-removed", len(path) < len(tail)+1)
 	}
 	var cands []zzCand
 	for j, s := range set {
